@@ -1,6 +1,6 @@
 from props import tu, run, FCO
 
-_PARTS = 4
+_PARTS = 7
 
 CFG = dict(
     level="exploration",
@@ -27,16 +27,18 @@ CFG = dict(
     exhaustive_domain={"quick": "all source shapes 1..5 x 1..5; every point of the 1/8 grid over [-2,w+1]x[-2,h+1] plus +-2^-20 around integer/half-integer lines",
                        "thorough": "all source shapes 1..7 x 1..7; 1/16 grid; 2 content rounds; 100000 matrix triples"},
     types=["gray8_pixel_t", "rgb8_pixel_t", "gray16_pixel_t", "gray32f_pixel_t", "point<double>", "point<float>",
-           "nearest_neighbor_sampler", "bilinear_sampler", "matrix3x2<double>", "matrix3x2<float>"],
+           "nearest_neighbor_sampler", "bilinear_sampler", "matrix3x2<double>", "matrix3x2<float>",
+           "wide channels (double coordinates): gray32_pixel_t (uint32), gray32s_pixel_t, rgb32_pixel_t, pixel<double,gray_layout_t>, pixel<double,rgb_layout_t>"],
     assumptions=["'surrounding pixels' = in-image corners of the cell [floor p, floor p + 1]; reporting 'outside' is accepted anywhere except inside [0,w-1]x[0,h-1]",
-                 "tolerance: 1 unit for integral channels (the sampler truncates), 1e-5 for float32, plus 8 ulp of the coordinate type times the channel range",
+                 "tolerance: 1 unit for integral channels (the sampler truncates the weighted sum), 1e-5 for float32, 0 for double channels, plus 8 ulp of the coordinate type times the largest surrounding channel magnitude (4 weighted products + 3 additions of the documented formula, each rounded once); exact equality at integer coordinates for every type",
+                 "wide channels (uint32, int32, double) hold values float cannot represent (2^24+1, 2^31-1, 2^31, 2^32-1, INT_MIN, 2^53-1, fractions) and are sampled with double coordinates only: with float coordinates the documented channel*weight product is itself a float",
                  "nearest neighbour on exact .5 ties: either neighbour (or 'outside' at the border) is accepted",
                  "resample_pixels is compared with sample() at GIL's own transform(map,p), which is itself compared with the hand formula to 1e-12 relative",
                  "inverse is judged only for |det| > 1e-3, tolerance 1e-9 x (1+max|m|)^2/|det|",
                  "any_image_view overloads of resample_pixels and resample_subimage with a rotation are not exercised"],
     tus=[tu("c17_asan%d" % k, "harness/c17_sampling.cpp", "asan", extra=FCO + ["-DC17_PART=%d" % k]) for k in range(_PARTS)],
-    runs=[run("c17_asan%d" % k, shards=5 if k < 3 else 4,
-              min_cases={"quick": [100, 100, 100, 115][k], "thorough": [196, 196, 196, 347][k]}) for k in range(_PARTS)],
+    runs=[run("c17_asan%d" % k, shards=[5, 5, 5, 4, 6, 5, 4][k],
+              min_cases={"quick": [100, 100, 100, 115, 150, 100, 75][k], "thorough": [196, 196, 196, 347, 294, 196, 147][k]}) for k in range(_PARTS)],
     require_obs=["bilinear.x-pre.y-pre.true", "bilinear.x-pre.y-in.true", "bilinear.x-pre.y-last.true",
                  "bilinear.x-in.y-pre.true", "bilinear.x-in.y-in.true", "bilinear.x-in.y-last.true",
                  "bilinear.x-last.y-pre.true", "bilinear.x-last.y-in.true", "bilinear.x-last.y-last.true",
